@@ -350,6 +350,10 @@ def run(ctx, crate):
     rule_constructors(ctx, crate)
     rule_rayon_shares_bar(ctx, crate)
     rule_wrapper_impl_bounds(ctx, crate)
+    # "exhausting an iterator finishes the bar according to its finish behaviour": what each behaviour does to position, message and
+    # status (an abandoned bar keeps the number of items it counted: seed C17n merged AbandonWithMessage into the jump-to-length arms)
+    from .c04 import rule_finish_arms
+    rule_finish_arms(ctx, crate)
     # "does not change the ... return values ... seen by the caller": the provided methods of these traits whose *default* answers
     # without asking the wrapped value ((0, None), None) must be forwarded too - collect(), zip() and rayon's collectors act on them
     QUERIES = {"std::iter::Iterator": ("size_hint",), "futures_core::Stream": ("size_hint",), "rayon::iter::ParallelIterator": ("opt_len",)}
